@@ -95,6 +95,8 @@ def rule_returns(ctx):
 
 
 def run(ctx):
+    from ..rules import round5 as _R5
+    _R5.rule_pitch_linear(ctx)
     from ..rules import extra as _X4
     _X4.rule_accidentals_repeat(ctx)
     _, bpc, steps = T.pitch_tables(ctx)
